@@ -232,9 +232,15 @@ func (c *c05Ctx) storeLevel(dir string) {
 	c.passGetter(rep("fresh-put/Getter"), gA, c05Height, "warm")
 	byHash := rep("fresh-put/GetByHash")
 	byHash.validated = !isEmpty // the empty block by hash is the bare shared in-memory accessor
-	c.twoPasses(byHash, func() (eds.AccessorStreamer, error) { return stA.GetByHash(c.ctx, c.dhash) })
+	c.twoPasses(byHash, func() (eds.AccessorStreamer, error) { return stA.GetByHash(c.ctx, c.dhash) }, "cold")
 	if neighbour {
 		c.checkNeighbour(rep("fresh-put/neighbour"), stA)
+	}
+	// a serving cache added on top of a store that still has the block in its recent cache hands out that one
+	if csA, err := stA.WithCache("serving", 4); err != nil {
+		c.infra("WithCache: %v", err)
+	} else {
+		c.twoPasses(rep("fresh-put/serving-cache-reads-recent-cache"), cachedByHeight(csA, c05Height), "hit")
 	}
 	c.dropCached(stA, c05Height, c05NeighbourAt)
 
@@ -252,7 +258,7 @@ func (c *c05Ctx) storeLevel(dir string) {
 		c.infra("WithCache: %v", err)
 		return
 	}
-	c.twoPasses(rep("reopen-odsq4/serving-cache-load"), cachedByHeight(csB, c05Height))
+	c.twoPasses(rep("reopen-odsq4/serving-cache-load"), cachedByHeight(csB, c05Height), "cold")
 	c.twoPasses(rep("reopen-odsq4/serving-cache-hit"), cachedByHeight(csB, c05Height), "hit")
 	c.twoPasses(rep("reopen-odsq4/GetByHeight-via-serving-cache"), byHeight(stB, c05Height), "hit")
 	c.passGetter(rep("reopen-odsq4/Getter-via-serving-cache"), gB, c05Height, "hit")
@@ -272,7 +278,7 @@ func (c *c05Ctx) storeLevel(dir string) {
 		}
 	}
 	c.twoPasses(rep("q4-pruned/GetByHeight"), byHeight(stB, c05Height))
-	c.twoPasses(rep("q4-pruned/serving-cache-load"), cachedByHeight(csB, c05Height))
+	c.twoPasses(rep("q4-pruned/serving-cache-load"), cachedByHeight(csB, c05Height), "cold")
 	c.twoPasses(rep("q4-pruned/serving-cache-hit"), cachedByHeight(csB, c05Height), "hit")
 	c.passGetter(rep("q4-pruned/Getter"), gB, c05Height, "cold")
 	c.dropCached(stB, c05Height, c05NeighbourAt)
@@ -305,7 +311,7 @@ func (c *c05Ctx) storeLevel(dir string) {
 		c.infra("WithCache: %v", err)
 		return
 	}
-	c.twoPasses(rep("ods-only-nocache/serving-cache-load"), cachedByHeight(csD, c05Height))
+	c.twoPasses(rep("ods-only-nocache/serving-cache-load"), cachedByHeight(csD, c05Height), "cold")
 	c.passGetter(rep("ods-only-nocache/Getter-via-serving-cache"), NewGetter(stD), c05Height, "hit")
 	c.dropCached(stD, c05Height)
 }
